@@ -8,6 +8,7 @@ itself. Every server run and every oracle evaluation happens in a child forked f
 starts from the state a freshly started nbdime process has (modules imported, nothing called yet).
 """
 import asyncio
+import gc
 import io
 import json
 import logging
@@ -51,9 +52,17 @@ def preload():
     import nbdime.patching, nbdime.diff_utils, nbdime.merging.notebooks, nbdime.diffing.notebooks  # noqa
     import contracts.specs  # noqa
     from . import mergespace, mergeoracles  # noqa
+    # nbformat compiles one validator per schema version on first use (~70 ms each): do it once, before forking
+    for nb in nbspace.base_notebooks(1) + [nbformat.v4.new_notebook()]:
+        for v in (nb, nbformat.reads(json.dumps(to_plain(nb)), as_version=4)):
+            nbformat.validate(v)
+            nbformat.writes(v)
     from nbdime.utils import EXPLICIT_MISSING_FILE
     if EXPLICIT_MISSING_FILE != DEVNULL:
         raise _defect('EXPLICIT_MISSING_FILE is %r' % (EXPLICIT_MISSING_FILE,))
+    # keep the children from copying the parent's heap page by page when the collector touches object headers
+    gc.collect()
+    gc.freeze()
 
 
 def forked(fn, *args):
@@ -63,6 +72,7 @@ def forked(fn, *args):
     if pid == 0:
         code = 0
         try:
+            gc.disable()
             os.close(r)
             try:
                 out = ('ok', fn(*args))
@@ -300,7 +310,7 @@ def _store_request(rnd, mode, case, want_valid):
     if rnd.random() < 0.6:
         body.update(rnd.choice(EVIL))
     if rnd.random() < 0.25:
-        rq['query'] = urlencode(rnd.choice([{'outputfilename': 'evil-q.ipynb'}, {'path': '{R}/elsewhere/evil-q.ipynb'},
+        rq['query'] = dict(rnd.choice([{'outputfilename': 'evil-q.ipynb'}, {'path': '{R}/elsewhere/evil-q.ipynb'},
                                             {'outputfilename': '../evil-q.ipynb', 'cwd': '{R}/elsewhere'}]))
     if want_valid:
         rq.update(body={'json': body}, cls='valid', label='notebook', nbref=which)
@@ -406,7 +416,8 @@ def case_nb(case, ref):
 
 
 def brief(rq):
-    return '%s %s%s [%s:%s]' % (rq['method'], rq['rel'], '?' + rq['query'] if rq['query'] else '', rq['cls'], rq['label'])
+    q = rq['query']
+    return '%s %s%s [%s:%s]' % (rq['method'], rq['rel'], '?' + (urlencode(q) if isinstance(q, dict) else q) if q else '', rq['cls'], rq['label'])
 
 
 # ------------------------------------------------------------------------------------------
@@ -496,7 +507,7 @@ def url_for(mode, port, rq, root):
     prefix = '' if rq.get('unprefixed') else mode['base_url'].rstrip('/')
     url = 'http://127.0.0.1:%d%s/%s' % (port, prefix, quote(rq['rel']))
     if rq['query']:
-        url += '?' + subst(rq['query'], quote(root, safe=''))
+        url += '?' + (urlencode(subst(rq['query'], root)) if isinstance(rq['query'], dict) else rq['query'])
     return url
 
 
@@ -562,7 +573,10 @@ def serve(root, case, reqs):
             server.stop()
 
     try:
-        asyncio.run(main())
+        # not asyncio.run: its orderly shutdown of the resolver thread pool costs 20 ms and the child exits anyway
+        loop = asyncio.new_event_loop()
+        asyncio.set_event_loop(loop)
+        loop.run_until_complete(main())
     except RuntimeError as exc:
         if 'Event loop stopped' not in str(exc):
             raise
@@ -574,12 +588,11 @@ def serve(root, case, reqs):
 
 
 def sweep(root, case):
-    """one request to every documented path under base_url, each against a fresh application"""
-    out = []
-    for method, rel in DOCUMENTED:
-        rq = {'ep': 'sweep', 'method': method, 'rel': rel, 'query': '', 'body': {'raw': '{}'} if method == 'POST' else None}
-        out.append((method, rel, forked(serve, root, case, [rq])[0]['status']))
-    return out
+    """one request to every documented path under base_url of one fresh application"""
+    reqs = [{'ep': 'sweep', 'method': method, 'rel': rel, 'query': '', 'body': {'raw': '{}'} if method == 'POST' else None}
+            for method, rel in DOCUMENTED]
+    answers = forked(serve, root, case, reqs)
+    return [(rq['method'], rq['rel'], a['status']) for rq, a in zip(reqs, answers)]
 
 
 # ------------------------------------------------------------------------------------------
@@ -597,6 +610,7 @@ def _read(work, name, empty_ok=False):
 
 def oracle(root, case, rq, ans):
     """judge the answer to one request that had to be served. Returns (failures, note); failures are (kind, text)"""
+    _Sites()
     from .difforacles import first_difference
     from .mergeoracles import exc_summary
     work = os.path.join(root, 'work')
@@ -698,7 +712,7 @@ def judge(root, case, rq, ans):
     fails, note = [], None
     cls, ep, status = rq['cls'], rq['ep'], ans['status']
     changes = delta(ans['before'], ans['after'])
-    tag = '%s:%s' % (ep if ep != 'other' else rq['method'] + ' ' + rq['rel'] if rq['label'] == 'unknown-url' else rq['rel'], rq['label'])
+    tag = '%s:%s' % (ep, rq['label'])
     documented = (rq['method'], rq['rel']) in DOCUMENTED and not rq.get('unprefixed')
     if documented and status == 404:
         fails.append(('route-missing:' + (rq['rel'] or '(root)'), '%s %s under base_url %r is answered 404' % (rq['method'], rq['rel'], case['mode']['base_url'])))
@@ -753,15 +767,24 @@ def _show_body(rq):
 
 
 def _answer_key(a):
-    return (a['status'], a['body'], a['stopped'], a['exit_code'], tuple(sorted(a['after'].items(), key=lambda kv: kv[0])))
+    return (a['status'], a['body'], a['stopped'], a['exit_code'], a['after'])
+
+
+def scratch():
+    """temporary root of one case. The harness rewrites the tree before every forked run; on the sandbox's disk-backed
+    /tmp that costs more than serving the requests, so memory-backed /dev/shm is preferred unless TMPDIR says otherwise"""
+    import tempfile
+    where = None
+    if not os.environ.get('TMPDIR') and os.path.isdir('/dev/shm') and os.access('/dev/shm', os.W_OK | os.X_OK):
+        where = '/dev/shm'
+    return os.path.realpath(tempfile.mkdtemp(prefix='c20-', dir=where))
 
 
 def run_case(case, keep=None, history=True):
     """-> (failures [(kind, text, request index)], notes, stats). keep: indices of the requests to retain."""
-    import tempfile
     reqs = case['requests'] if keep is None else [case['requests'][i] for i in keep]
     idx = list(range(len(case['requests']))) if keep is None else list(keep)
-    root = os.path.realpath(tempfile.mkdtemp(prefix='c20-'))
+    root = scratch()
     fails, notes, stats = [], [], {}
     try:
         start = initial_tree(case)
@@ -797,8 +820,7 @@ def run_case(case, keep=None, history=True):
 
 
 def run_sweep(case):
-    import tempfile
-    root = os.path.realpath(tempfile.mkdtemp(prefix='c20-'))
+    root = scratch()
     try:
         restore(root, initial_tree(case))
         res = sweep(root, case)
